@@ -6,6 +6,12 @@ let rec pos_of_int n = if n = 1 then XH else if n land 1 = 0 then XO (pos_of_int
 let z_of_int n = if n = 0 then Z0 else if n > 0 then Zpos (pos_of_int n) else Zneg (pos_of_int (-n))
 let rec int_of_pos = function XH -> 1 | XO p -> 2 * int_of_pos p | XI p -> 2 * int_of_pos p + 1
 let int_of_z = function Z0 -> 0 | Zpos p -> int_of_pos p | Zneg p -> - (int_of_pos p)
+(* values beyond 60 bits (pledged sizes) are printed in binary, most significant bit first: "b1011" *)
+let rec pos_bits = function XH -> 1 | XO p -> 1 + pos_bits p | XI p -> 1 + pos_bits p
+let rec pos_bin p acc = match p with XH -> "1" ^ acc | XO q -> pos_bin q ("0" ^ acc) | XI q -> pos_bin q ("1" ^ acc)
+let string_of_z z = match z with
+  | Zpos p when pos_bits p > 60 -> "b" ^ pos_bin p ""
+  | _ -> string_of_int (int_of_z z)
 
 (* numbers that may exceed 62 bits are sent in binary, most significant bit first: "b1011" *)
 let z_of_bin s =
@@ -23,6 +29,8 @@ let cls = function
 
 let b s = (s = "1")
 let zi s = if String.length s > 0 && s.[0] = 'b' then z_of_bin s else z_of_int (int_of_string s)
+
+let mk w c h s m t st = { wlog = zi w; clog = zi c; hlog = zi h; slog = zi s; mmatch = zi m; tlen = zi t; strat = zi st }
 
 let parse toks =
   match toks with
@@ -58,12 +66,32 @@ let parse toks =
   | ["dvec"; o] -> ODVec (b o)
   | ["nop"] -> ONop
   | ["new"] -> ONew
+  | ["csetcp"; o; wl; cl; hl; sl; mm; tl; st] -> OCSetCP (b o, mk wl cl hl sl mm tl st)
+  | ["csetfp"; o; cs; ck; nd] -> OCSetFP (b o, { f_cs = zi cs; f_ck = zi ck; f_nd = zi nd })
+  | ["csetp"; o; wl; cl; hl; sl; mm; tl; st; cs; ck; nd] -> OCSetP (b o, mk wl cl hl sl mm tl st, { f_cs = zi cs; f_ck = zi ck; f_nd = zi nd })
+  | ["pinitadv"; wl; cl; hl; sl; mm; tl; st; cs; ck; nd] -> OPInitAdv (mk wl cl hl sl mm tl st, { f_cs = zi cs; f_ck = zi ck; f_nd = zi nd })
+  | ["dload"; o; k] -> ODLoad (b o, zi k)
+  | ["drefprefix"; o; k] -> ODRefPrefix (b o, zi k)
+  | ["dfx"; o; k] -> ODFx (b o, zi k)
+  | ["ddec"; o; f] -> ODDec (b o, zi f)
+  | ["ddec1"; o; f] -> ODDec1 (b o, [zi f])
+  | ["ddecm"; o; f1; f2; f3] -> ODDec1 (b o, [zi f1; zi f2; zi f3])
+  | ["ddecu"; o; k; f] -> ODDecU (b o, zi k, zi f)
+  | ["dxvec"; o] -> ODXVec (b o)
   | _ -> failwith ("bad op: " ^ String.concat " " toks)
 
-let mk w c h s m t st = { wlog = zi w; clog = zi c; hlog = zi h; slog = zi s; mmatch = zi m; tlen = zi t; strat = zi st }
+let xparse toks =
+  match toks with
+  | ["cpl"; o; v] -> XPledge (b o, zi v)
+  | ["cfxwin"; o] -> XFxWin (b o)
+  | ["cxvec"; o] -> XXVec (b o)
+  | ["cavec"; o] -> XAVec (b o)
+  | ["cmvec"; o] -> XMVec (b o)
+  | ["cuse"; o] -> XUse (b o)
+  | _ -> XB (parse toks)
 
 let () =
-  let w = ref world_new in
+  let w = ref xworld_new in
   let buf = Buffer.create (1 lsl 20) in
   let print_cpar c =
     List.iter (fun v -> Buffer.add_string buf (string_of_int (int_of_z v)); Buffer.add_char buf ' ') (cpar_list c);
@@ -96,10 +124,10 @@ let () =
        | ["get"; level; src; dict; mode] -> print_cpar (get_cparams (zi level) (zi src) (zi dict) (zi mode))
        | ["getp"; level; src; dict] -> print_cpar (get_cparams_public (zi level) (zi src) (zi dict))
        | _ ->
-           let (w', (r, vals)) = step !w (parse toks) in
+           let (w', (r, vals)) = xstep !w (xparse toks) in
            w := w';
            Buffer.add_string buf (cls r);
-           List.iter (fun v -> Buffer.add_char buf ' '; Buffer.add_string buf (string_of_int (int_of_z v))) vals;
+           List.iter (fun v -> Buffer.add_char buf ' '; Buffer.add_string buf (if v = unknown_cell then "?" else string_of_z v)) vals;
            Buffer.add_char buf '\n'
      done
    with End_of_file -> ());
